@@ -370,14 +370,16 @@ impl Server {
             .iter()
             .filter(|p| p.contains(id) || p.contains(id2))
             .filter(|p| p.ids().len() > 1)
-            .sorted_by(|a, b| {
-                for (x, y) in a.ids().iter().zip(b.ids().iter()) {
+            .map(|p| (p.position(self.database.graph()), p))
+            .sorted_by(|(a, _), (b, _)| {
+                for (x, y) in a.iter().zip(b.iter()) {
                     if x != y {
                         return y.cmp(x); // For descending order
                     }
                 }
-                b.ids().len().cmp(&a.ids().len()) // If all elements are equal, compare b
+                b.len().cmp(&a.len()) // If all elements are equal, compare b
             })
+            .map(|(_, p)| p)
             .map(|p| p.drop_first())
             .filter(|p| p.ids().len() < 4)
             .map(|p| p.to_nested_symbol(self.database.graph(), &self.base_path))
